@@ -132,6 +132,30 @@ fn case_c(h: u64, len: u32, fl: u64) -> Result<String, (String, String)> {
     r.map_err(|m| (format!("panic:{}", panic_site(&m)), format!("history {names:?} (flags {fl:04b}) panicked in operation {at}: {m}")))
 }
 
+/// (d) scale: one run-style call that touches thousands of distinct locations, nests thousands of calls or runs for > 2^16 steps
+fn case_d(kind: u64, fl: u64) -> Result<String, (String, String)> {
+    const KINDS: [&str; 6] = ["NOP sled, run_with_limit(70000)", "ADD sled, run_while 6000 steps", "JSR-to-next sled (one call per step), run_with_limit(70000)", "store sled (STR R0,R1,#0 ; ADD R1,R1,#1) walking 5000 cells", "NOP sled, 70000 step_in calls", "JSR sled, step_over / step_out"];
+    let r = catch(std::panic::AssertUnwindSafe(|| {
+        let mut sim = Simulator::new(flags(fl, 0x0000));
+        // no interrupting device here: the run is meant to stay in the sled
+        sim.device_handler.set_keyboard(BufferedKeyboard::default()); sim.device_handler.set_display(BufferedDisplay::default());
+        let w: &[u16] = match kind { 0 | 4 => &[0x0000], 1 => &[0x1021], 2 | 5 => &[0x4800], _ => &[0x7040, 0x1261] };
+        for a in 0x3000..0xFD00u16 { sim.mem[a].set(w[(a as usize) % w.len()]); }
+        sim.pc = 0x3000; sim.reg_file[reg(1)].set(0x8000); sim.reg_file[reg(6)].set(0xFD80);
+        let _ = sim.write_mem(0xFFFC, Word::new_init(0x8002), lc3_ensemble::sim::MemAccessCtx::omnipotent());
+        let mut outs = String::new();
+        match kind {
+            0 | 2 | 3 => { match sim.run_with_limit(if kind == 3 { 10_000 } else { 70_000 }) { Ok(()) => outs.push('r'), Err(e) => outs.push_str(&err_name(&e)) } }
+            1 => { let mut n = 0; match sim.run_while(|_| { n += 1; n < 6000 }) { Ok(()) => outs.push('w'), Err(e) => outs.push_str(&err_name(&e)) } }
+            4 => { for _ in 0..70_000 { if let Err(e) = sim.step_in() { outs.push_str(&err_name(&e)); break; } } outs.push('s'); }
+            _ => { let _ = sim.run_with_limit(5000); let _ = sim.step_over(); let _ = sim.step_in(); let mut n = 0; let _ = sim.run_while(|_| { n += 1; n < 100 }); outs.push('o'); }
+        }
+        let n = sim.observer.take_mem_accesses().count(); let _ = sim.frame_stack.len(); let _ = sim.prefetch_pc();
+        format!("{outs}{}", n.min(9))
+    }));
+    r.map_err(|m| (format!("panic:{}", panic_site(&m)), format!("{} (flags {fl:04b}): {m}", KINDS[kind as usize])))
+}
+
 pub fn run(ctx: &Ctx) -> Report {
     let mut rep = Report::new("(a) every 16-bit word at each of 13 boundary PCs (quick: 3: x3000, xFE00, xFFFF) x 4 register presets (quick: rotated) x all 16 combinations of {strict, real traps, ignore privilege, debug frames} x {user, supervisor}, with keyboard (IE on, data queued), display, an enabled timer and internal-register mappings (1 case in 8 'noisy': timer firing at the first poll and keyboard interrupts enabled; otherwise first fire after 2-3 polls) of PC and saved SP attached; up to 3 steps, prefetch_pc() after each; (b) uniform images: all 64K words = w for every w, PC = xFFF0, 20 (thorough 60) steps across the address wrap, then run_while with an 8-step tripwire, for flag sets rotated by w (thorough: all 16). (c) every history of <=4 (thorough 5) operations on one simulator over {load a 3-block / 1-block / 2-block / reserved-words-only object file, run_with_limit(40), step_in, reset, pc := x3000, toggle strict, add_device with a taken port (must fail), add_device on free ports, remove_device, host reads/writes of those ports} under 4 (thorough 16) flag sets, so that loads over loads and runs after reloads are covered. Oracle: no panic (overflow checks on); every failure is a SimErr. non-trivial = cases that end in a simulator error");
     let npc = ctx.pick(3u64, 13u64);
@@ -174,6 +198,12 @@ pub fn run(ctx: &Ctx) -> Report {
         });
         rep.absorb(r);
     }
+    let r = sweep(ctx, 6 * 4, 1, |k, acc| {
+        let (kind, fl) = (k / 4, [0b0000u64, 0b1000, 0b0001, 0b1010][(k % 4) as usize]);
+        acc.evals += 1; acc.transitions += 70_000; acc.count("d_long_runs", 1);
+        match case_d(kind, fl) { Ok(o) => { acc.nontrivial += 1; acc.outcomes.insert(fnv_str(&o) ^ 0xD); } Err((sig, d)) => acc.violation(sig, format!("d:{kind}:{fl}"), d) }
+    });
+    rep.absorb(r);
     rep.bound("history_length", Json::i(maxlen as u64));
     rep.bound("pcs", Json::i(npc)); rep.bound("register_presets", Json::i(nreg)); rep.bound("flag_sets", Json::i(16)); rep.bound("uniform_image_steps", Json::i(steps as u64));
     rep.require(rep.acc.outcomes.len() >= 8, "several error kinds and clean runs observed");
@@ -186,6 +216,7 @@ pub fn replay(case: &str) -> Option<String> {
     let r = match *p.first()? {
         "a" => case_a(n(1)? as u16, n(2)? as usize, n(3)? as usize, n(4)?, n(5)? == 1).map(|_| ()),
         "b" => case_b(n(1)? as u16, n(2)?, n(3)? as usize, n(4)? == 1).map(|_| ()),
+        "d" => case_d(n(1)?, n(2)?).map(|_| ()),
         "c" => case_c(n(1)?, n(2)? as u32, n(3)?).map(|_| ()),
         _ => return None,
     };
